@@ -16,6 +16,7 @@ import (
 // The channel needs room for the result (capacity >= 1), or the helper's send must itself be a select with a way out.
 func c09ResultChannelNotAbandoned(c *Ctx, rels ...string) {
 	const rule = "result-channel-not-abandoned"
+	c.Explanation += " Helper goroutines that report over an unbuffered channel of their starter are received unconditionally."
 	p := c.P
 	n := 0
 	for _, fn := range p.FuncsIn(rels...) {
